@@ -93,8 +93,11 @@ def fillv(f):
     return float(f)
 
 
+CRASH_VAL = -987654321     # rendered to Coq for an unexpected exception: no model answer ever equals it
+
+
 def run_query(mw, q, via_buffer):
-    """One query -> canonical result: list of cells / one cell / 'IndexError' / 'ValueError'."""
+    """One query -> canonical result: list of cells / one cell / 'IndexError' / 'CRASH:<exception>'."""
     k = q["k"]
     try:
         if k == "wi":
@@ -117,47 +120,106 @@ def run_query(mw, q, via_buffer):
             return canon_val(mw.at(dt(q["t"])) if q.get("via", "at") == "at" else mw[dt(q["t"])])
     except IndexError:
         return "IndexError"
+    except Exception as exc:  # noqa: BLE001 - any other exception is a finding, not a harness error
+        return f"CRASH:{type(exc).__name__}"
     raise AssertionError(q)
 
 
 def observe(mw):
+    """All observers; an observer that raises is recorded in o['crash'] (value -1 / None)."""
     b = mw._buffer
-    return {
-        "cv": int(mw.count_valid()), "cc": int(mw.count_covered()),
-        "old": us(mw.oldest_timestamp), "new": us(mw.newest_timestamp),
-        "gaps": [[us(g.start), us(g.end)] for g in b.gaps],
+    crash = []
+
+    def safe(name, f, dflt):
+        try:
+            return f()
+        except Exception as exc:  # noqa: BLE001
+            crash.append(f"{name} raised {type(exc).__name__}")
+            return dflt
+    o = {
+        "cv": safe("count_valid()", lambda: int(mw.count_valid()), -1),
+        "cc": safe("count_covered()", lambda: int(mw.count_covered()), -1),
+        "old": safe("oldest_timestamp", lambda: us(mw.oldest_timestamp), -1),
+        "new": safe("newest_timestamp", lambda: us(mw.newest_timestamp), -1),
+        "gaps": safe("gaps", lambda: [[us(g.start), us(g.end)] for g in b.gaps], []),
         "cells": canon_list(b._buffer),
         "bn": None if b.time_bound_newest == b._TIMESTAMP_MIN else us(b.time_bound_newest),
     }
+    if crash:
+        o["crash"] = crash
+    return o
+
+
+def round_trip(buf, how, ser):
+    """A second instance that must be indistinguishable from [buf]."""
+    if how == "dump":        # serialization.dump / load through a file (the anchored module)
+        fd, path = tempfile.mkstemp(suffix=".rb")
+        os.close(fd)
+        try:
+            ser.dump(buf, path)
+            return ser.load(path)
+        finally:
+            os.unlink(path)
+    if how == "pickle":
+        import pickle
+        return pickle.loads(pickle.dumps(buf))
+    import copy
+    return copy.deepcopy(buf)
+
+
+def _do_update(buf, st, Sample, Quantity):
+    """-> (rejected, crash text or None)"""
+    v = st["v"]
+    val = None if v is None else Quantity(float("nan") if v == "nan" else float(v))
+    try:
+        buf.update(Sample(dt(st["t"]), val))
+    except IndexError:
+        return True, None
+    except Exception as exc:  # noqa: BLE001
+        return False, f"update() raised {type(exc).__name__}"
+    return False, None
 
 
 def run_history(case):
+    """Drive the real objects.  A round-trip step (dump/load, pickle, deepcopy) replaces the buffer
+    by its copy; the ORIGINAL is kept as a shadow that receives the same later updates, and every
+    later observation / query answer of the copy is compared with the shadow's (o['shadow'])."""
     np, Broadcast, Quantity, MovingWindow, Sample, ORB, ser = _imports()
     mw = build(case)
+    shadow = None            # facade around the never-copied original, once a round trip happened
     out = {"cap": mw.capacity, "steps": []}
     via_buffer = case["kind"] != "mw"
     for st in case["steps"]:
-        if st["op"] == "rt":   # serialization round trip of the ring buffer
-            fd, path = tempfile.mkstemp(suffix=".rb")
-            os.close(fd)
+        crash = []
+        if st["op"] == "rt":
             try:
-                ser.dump(mw._buffer, path)
-                mw._buffer = ser.load(path)
-            finally:
-                os.unlink(path)
-            o = observe(mw)
-            o["rej"] = False
-        else:
-            v = st["v"]
-            val = None if v is None else Quantity(float("nan") if v == "nan" else float(v))
+                copy_ = round_trip(mw._buffer, st.get("how", "dump"), ser)
+                if shadow is None:
+                    shadow = build(case)
+                    shadow._buffer = mw._buffer
+                mw._buffer = copy_
+            except Exception as exc:  # noqa: BLE001
+                crash.append(f"round trip ({st.get('how', 'dump')}) raised {type(exc).__name__}")
             rej = False
-            try:
-                mw._buffer.update(Sample(dt(st["t"]), val))
-            except IndexError:
-                rej = True
-            o = observe(mw)
-            o["rej"] = rej
+        else:
+            rej, cr = _do_update(mw._buffer, st, Sample, Quantity)
+            if cr:
+                crash.append(cr)
+            if shadow is not None:
+                _do_update(shadow._buffer, st, Sample, Quantity)
+        o = observe(mw)
+        o["rej"] = rej
         o["q"] = [run_query(mw, q, via_buffer) for q in st.get("q", [])]
+        if crash:
+            o["crash"] = crash + o.get("crash", [])
+        if shadow is not None:
+            so = observe(shadow)
+            so.pop("crash", None)
+            sq = [run_query(shadow, q, via_buffer) for q in st.get("q", [])]
+            diffs = [k for k in ("cv", "cc", "old", "new", "gaps", "cells", "bn") if so[k] != o[k]]
+            diffs += [f"query {n}" for n, (x, y) in enumerate(zip(sq, o["q"])) if x != y]
+            if diffs:
+                o["shadow"] = diffs
         out["steps"].append(o)
     return out
 
@@ -230,8 +292,8 @@ class SlidingMap:
 
 def judge_window(sm, slots, fill, got, what):
     """got must be, slot by slot, the stored valid value or the fill."""
-    if got in ("IndexError",):
-        return [f"{what}: raised {got}, expected {len(slots)} slots"]
+    if isinstance(got, str):
+        return [] if got.startswith("CRASH:") else [f"{what}: raised {got}, expected {len(slots)} slots"]
     if len(got) != len(slots):
         return [f"{what}: returned {len(got)} values {got} for the {len(slots)} covered slots "
                 f"{[k - sm.N for k in slots]} (relative to newest)"]
@@ -248,6 +310,8 @@ def judge_window(sm, slots, fill, got, what):
 
 def judge_at(sm, slot, in_range, got, what):
     """at(): stored value when the slot is valid; otherwise NaN or IndexError, never other data."""
+    if isinstance(got, str) and got.startswith("CRASH:"):
+        return []       # reported once as a crash
     if in_range and slot in sm.m:
         if got != sm.m[slot]:
             return [f"{what}: slot newest{slot - sm.N:+d} holds {sm.m[slot]} but got {got}"]
@@ -271,6 +335,13 @@ def oracle_case(case, obs):
             out.append({"what": f"{kind}: after step {i}: {m}", "finding": None})
 
     for i, (st, o) in enumerate(zip(case["steps"], obs["steps"])):
+        if o.get("crash"):
+            add(i, [f"crash: {'; '.join(o['crash'])}" + (" on a buffer restored by " + st.get("how", "dump") if st["op"] == "rt" else "")])
+        if o.get("shadow"):
+            add(i, [f"roundtrip: the restored copy differs from the original buffer fed the same history in {o['shadow']}"])
+        for q, g in zip(st.get("q", []), o["q"]):
+            if isinstance(g, str) and g.startswith("CRASH:"):
+                add(i, [f"crash: query {q['k']} raised {g[6:]}"])
         if st["op"] == "u":
             acc = sm.update(st["t"], st["v"])
             if acc == o["rej"]:
@@ -544,6 +615,8 @@ def c_fill(f):
 def c_result(r):
     if r == "IndexError":
         return "RErr"
+    if isinstance(r, str) and r.startswith("CRASH:"):
+        return f"(RVal (Some {cZ(CRASH_VAL)}))"
     if isinstance(r, list):
         return f"(RList {clist(r, c_cell)})"
     return f"(RVal {c_cell(r)})"
